@@ -1182,8 +1182,12 @@ impl Sys {
                 LKind::Tcp if cfg.listeners.get(i + 1) == Some(&LKind::TcpBindSecond) => {
                     // one bind() call with two addresses (ports picked by binding and releasing them)
                     let ip = format!("127.89.{}.{}:0", std::process::id() % 250 + 1, exec % 250 + 1);
-                    let pick = || std::net::TcpListener::bind(&ip).expect("bind").local_addr().unwrap();
-                    let (a1, a2) = (pick(), pick());
+                    // both reservations are held until both ports are known, so they differ
+                    let (a1, a2) = {
+                        let r1 = std::net::TcpListener::bind(&ip).expect("bind");
+                        let r2 = std::net::TcpListener::bind(&ip).expect("bind");
+                        (r1.local_addr().unwrap(), r2.local_addr().unwrap())
+                    };
                     w.laddrs.borrow_mut().push(LAddr::Tcp(a1));
                     w.laddrs.borrow_mut().push(LAddr::Tcp(a2));
                     builder = builder.bind(format!("svc{i_svc}"), &[a1, a2][..], move || fn_factory(move || create_service(i_svc))).expect("bind two addresses");
